@@ -15,6 +15,7 @@ import (
 	"errors"
 	"fmt"
 	"io"
+	"os"
 	"testing"
 	"time"
 
@@ -311,12 +312,32 @@ func runC03(t *testing.T, scn c03Scn) c03Obs {
 	return obs
 }
 
+func c03ID(s c03Scn) string {
+	return fmt.Sprintf("v%d/%s/h=%s/%s/p%d/skip=%v/vpc=%s/vc=%s/t=%s",
+		s.Ver, s.Suite, s.Honest, s.Rogue, s.Policy, s.Skip, s.VPC, s.VC, s.Tamper)
+}
+
+// second output stream (the tamper leg runs in the same go test invocation)
+func c03OpenOut(t *testing.T, env string) *vOut {
+	t.Helper()
+	p := os.Getenv(env)
+	if p == "" {
+		p = os.DevNull
+	}
+	f, err := os.Create(p)
+	if err != nil {
+		t.Fatalf("%s: %v", env, err)
+	}
+	t.Cleanup(func() { _ = f.Close() })
+
+	return &vOut{f: f}
+}
+
 func c03Scenarios() []c03Scn {
 	var out []c03Scn
 	cb := []string{"", "ok", "reject"}
 	add := func(s c03Scn) {
-		s.ID = fmt.Sprintf("v%d/%s/h=%s/%s/p%d/skip=%v/vpc=%s/vc=%s/t=%s",
-			s.Ver, s.Suite, s.Honest, s.Rogue, s.Policy, s.Skip, s.VPC, s.VC, s.Tamper)
+		s.ID = c03ID(s)
 		out = append(out, s)
 	}
 	srvRogues := []string{
@@ -363,6 +384,9 @@ func c03Scenarios() []c03Scn {
 		for _, hs := range []string{"client", "server"} {
 			for _, r := range []string{"honest", "wrong_psk"} {
 				for pol := 0; pol <= 4; pol++ {
+					if hs == "client" && pol != 0 && pol != 3 {
+						continue // a server that demands certificates rejects the (honest) PSK client itself
+					}
 					for _, vc := range cb {
 						add(c03Scn{Ver: 12, Suite: suite, Honest: hs, Rogue: r, Policy: pol, VC: vc})
 					}
